@@ -332,7 +332,7 @@ def build(rows, strict=False):
         iv = impl if impl is not None else View("opaque")
         nodes.append({
             "id": r["id"], "name": r["name"], "dn": r["dn"], "op": use.op, "kids": kids, "p": p, "s": s,
-            "named": named, "en": r["en"], "vid": r["vid"], "ak": r["ak"], "sel": r["sel"],
+            "named": named, "en": r["en"], "vid": r["vid"], "ak": r["ak"], "sel": r["sel"], "lim": r.get("lim", 0),
             "hasmsg": r["hasmsg"], "emsg": r["emsg"], "thas": thas, "tmsg": tmsg, "prop": prop_of(use.op),
             "iop": iv.op, "ikids": list(r["subs"]), "ip": list(iv.p),
         })
